@@ -844,7 +844,10 @@ class TensorDict(TensorDictBase):
                 value = value.to(self.device)
                 # value = self.empty(recurse=True)[index].update(value)
             if value.batch_size != indexed_bs:
-                if value.shape == indexed_bs[-len(value.shape) :]:
+                if (
+                    value.shape
+                    == indexed_bs[max(0, len(indexed_bs) - len(value.shape)) :]
+                ):
                     # try to expand on the left (broadcasting)
                     value = value.expand(indexed_bs)
                 else:
